@@ -289,23 +289,40 @@ func (t *Task) latestDependency(pg wpg.Conn) (uint64, []byte, error) {
 		select num, hash
 		from latest
 		order by num asc
-		limit 1;
 	`
-	num, hash := uint64(0), []byte{}
-	err := pg.QueryRow(
-		t.ctx,
-		q,
-		t.srcName,
-		t.destConfig.Dependencies,
-	).Scan(&num, &hash)
-	switch {
-	case errors.Is(err, pgx.ErrNoRows):
-		return 0, nil, nil
-	case err != nil:
+	rows, err := pg.Query(t.ctx, q, t.srcName, t.destConfig.Dependencies)
+	if err != nil {
 		return 0, nil, err
-	default:
-		return num, hash, nil
 	}
+	defer rows.Close()
+	var (
+		n         int
+		num, hash = uint64(0), []byte{}
+	)
+	for ; rows.Next(); n++ {
+		var (
+			rnum  uint64
+			rhash []byte
+		)
+		if err := rows.Scan(&rnum, &rhash); err != nil {
+			return 0, nil, err
+		}
+		if n == 0 {
+			num, hash = rnum, rhash
+		}
+	}
+	if err := rows.Err(); err != nil {
+		return 0, nil, err
+	}
+	// wait until every dependency has recorded progress
+	var uniq = map[string]struct{}{}
+	for _, dep := range t.destConfig.Dependencies {
+		uniq[dep] = struct{}{}
+	}
+	if n < len(uniq) {
+		return 0, nil, nil
+	}
+	return num, hash, nil
 }
 
 func (t *Task) latest(ctx context.Context, pg wpg.Conn) (uint64, []byte, error) {
